@@ -5,24 +5,29 @@ PROPS = {
         engine='qctree', driver='qctree', stateful=True,
         lean=['XV.Props.C15'],
         level='proof',
-        trusted_base=[KERNEL, HARNESS],
-        assumptions=[],
-        timeout={'quick': 600, 'thorough': 3000},
+        trusted_base=[KERNEL, HARNESS,
+                      "go/extract reg_qctree.go (guard-fact extractor): trusted to lift the three comparisons (updateHighQC view check, insertOrphan expiry check, DefaultPaceMaker.AdvanceView) verbatim into lean/XV/Gen/QcTree.lean; validated by the correspondence run",
+                      "modelled by hand (tied by correspondence after every op, not by translation): insert / insertOrphan / adoptOrphans / updateHighQC / enforceUpdateHighQC / updateCommit / DFSQuery over a flat sons map; the tree-and-pacemaker part of handleReceivedProposal / handleReceivedVoteMsg as the composite ops prop / vote"],
+        assumptions=["a proposal id determines the proposal's view and parent id, and parent ids are acyclic (ids are block hashes covering the parent hash): hypothesis `Acyclic W` of tree_inv / stored_once / adopted_on_parent_arrival",
+                     "the tree starts in the state built by InitQCTree on a fresh chain (Genesis = Root = HighQC = CommitQC); restart states of InitQCTree are not covered",
+                     "int64 overflow of view numbers is out of the model (views are Int)",
+                     "signature / quorum checks in front of the tree (CheckProposal, CheckVote, vote counting) are C14's subject: prop / vote model the tree and pacemaker effects of an accepted proposal / a reached quorum"],
+        timeout={'quick': 900, 'thorough': 3000},
     ),
 }
 
 ENGINES = [
     dict(name='qctree', path='go/cmd/qctree + lean/XV/Model/QcTree.lean', serves_properties=['C15'],
-         kind_free_text='Lean model of QCPendingTree (flat sons map, fuelled DFS, orphan forest, markers) and DefaultPaceMaker; harness drives the real tree mutators through the verif export shim'),
+         kind_free_text='Lean model of QCPendingTree (flat sons map, fuelled DFS, orphan forest, four markers) and DefaultPaceMaker; the harness drives the real package-private tree mutators through the verif export shim, compares the full structural dump with the model after every op and evaluates the C15 invariant on the real pointer structure'),
 ]
 
 META = {
     'C15': dict(
-        text="TODO",
+        text="Kernel-checked theorems (lean/XV/Props/C15.lean) about an executable model of QCPendingTree after the two fix: commits (d92806d insertOrphan, 4320aec updateHighQC), quantified over ALL operation sequences (arrivals in any order, duplicates, competing children, updateHighQC, enforceUpdateHighQC, updateCommit, proposal-with-commit, vote-quorum, pacemaker) and all acyclic proposal worlds: tree_inv (Root's tree + orphan forest is a forest: edges agree with ParentId, roots distinct and nobody's sons, sons lists duplicate-free, every id reachable in exactly one way = stored at most once); stored_once (an inserted proposal is accepted and stored, unless OrphanMap shows it already went through the orphan list and was since expired/pruned); adopted_on_parent_arrival (no stored proposal waits beside its stored parent: it is in the parent's sons and not an orphan root); highqc_monotone (HighQC view non-decreasing over any history without enforceUpdateHighQC); markers_are_ancestors (Generic/Locked/Commit are parent/grandparent/great-grandparent of HighQC whenever set; only exception the initial CommitQC=Genesis placeholder while HighQC=Genesis); root_moves_down / root_only_descends (new Root is a node of the old tree; over histories the old Root stays an ancestor); pacemaker_monotone. The DFS fuel (number of placed ids) is proved sufficient under the invariant (dfs_complete). Tie: three comparisons are regenerated from source (Gen/QcTree.lean); everything else by correspondence: after EVERY op the full dump (root, 4 markers, pacemaker, tree edges, orphan roots, orphan-forest edges, OrphanMap) of the real structure is compared with the model, on all block trees x all arrival orders for n<=4 (quick) / n<=6 (thorough) and thousands of random interleavings up to 12 proposals; an impl-side oracle evaluates the invariant on the real pointers.",
         design_ref='DESIGN.md §6 C15',
-        note="TODO",
-        technique='Lean 4 proof over a hand model of the pending tree; differential correspondence after every op; impl-side invariant oracle',
+        note="Trusted: Lean kernel, the harness and its dump, the guard-fact extractor. Both defects found (orphan adoption, stale markers) are repaired in /repo and the theorems are about the repaired code; their replays stay in corpus/C15. Markers may still point at nodes pruned by updateCommit (updateCommit's own TODO): C15 as written constrains them to be HighQC's ancestors, not to lie inside the tree; the harness counts these states (info:marker-outside-tree) but does not report them. The real handleReceivedProposal/handleReceivedVoteMsg are exported by the hook but the harness drives only their tree/pacemaker effects (ops prop/vote), not message decoding, signatures or vote counting.",
+        technique='Lean 4 invariant proof over a hand model of the pending tree (flat sons map + fuelled DFS proved complete); guard facts regenerated from source; differential correspondence after every op; impl-side invariant oracle with delta-debugged replays',
     ),
 }
 
-HOOK_COMMITS = []
+HOOK_COMMITS = ['aa2b2dd verif hook: chained-bft export shim (synchronous tree mutators, message handlers, tree dump)']
